@@ -4,6 +4,7 @@ import (
 	"cmp"
 	"fmt"
 	"reflect"
+	"runtime"
 	"sort"
 )
 
@@ -142,4 +143,14 @@ func (RandReader) Read(p []byte) (int, error) {
 		}
 	}
 	return len(p), nil
+}
+
+// GOMAXPROCS replaces runtime.GOMAXPROCS in repository code: worker-pool sizes
+// derived from it become a per-run configuration (Sim.Procs) instead of a
+// property of the machine the check happens to run on.
+func GOMAXPROCS(n int) int {
+	if s := active.Load(); s != nil && s.Procs > 0 {
+		return s.Procs
+	}
+	return runtime.GOMAXPROCS(n)
 }
